@@ -6,6 +6,7 @@ CONSTANTS
   MAXU = 2
   OBJS = {"a", "c"}
   PROP = "C16"
+  PERT = {1}
 SPECIFICATION Spec
 INVARIANTS C16 C02 C03 NoJunk EmitReplay
 CHECK_DEADLOCK FALSE
